@@ -169,6 +169,24 @@ def space_ctor(cls, dim, method, border, rar=False):
                                     DG + "CubicMeshPDEStatio.sample_in_omega_domain", DG + "CubicMeshPDEStatio.sample_in_omega_border_domain"])
 
 
+def ctor_sentinels(cls, dim, prefix="C08"):
+    """every batch index starts at the reshuffle sentinel of its *own* batch size, INT32_MAX - b - 1 (so that the first
+    draw reshuffles and idx + b never exceeds the 32-bit range: eager Python ints and jitted int32 agree)"""
+    name = f"{prefix}/{cls}.__post_init__/ensures.every_index_starts_at_its_own_sentinel[dim={dim}]"
+    def run(seed):
+        t0 = time.time()
+        ex = Executor(SRC)
+        pre0 = [n >= 1, nt >= 1, nf >= 1, bb >= 1, bb <= nf, bx >= 1, bx <= n, bt >= 1, bt <= nt] + BOX
+        rec = space_gen(ex, cls, dim, "uniform", True, pre0)
+        goals = [("interior_index", zint(rec.fields["curr_omega_idx"]) == INT32_MAX - bx - 1),
+                 ("border_index", zint(rec.fields["curr_omega_border_idx"]) == INT32_MAX - (2 if dim == 1 else bb) - 1),
+                 ("border_batch_size_field", zint(rec.fields["omega_border_batch_size"]) == (2 if dim == 1 else bb))]
+        if cls == "CubicMeshPDENonStatio":
+            goals.append(("time_index", zint(rec.fields["curr_time_idx"]) == INT32_MAX - bt - 1))
+        return done(name, goals, pre0, ex, t0, canary=zint(rec.fields["curr_omega_idx"]) == INT32_MAX - bx)
+    return FnObligation(name, run, [DG + f"{cls}.__post_init__"])
+
+
 def ctor_rejects(what):
     name = f"C08/CubicMeshPDEStatio.__post_init__/raises.{what}"
     def run(seed):
@@ -405,6 +423,7 @@ def obligations(tier):
                 if not (method == "grid" and dim == 2 and tier == "quick"):
                     obs.append(space_ctor(cls, dim, method, False, rar=True))
     obs += [ctor_rejects("border_count_not_multiple_of_facets"), ctor_rejects("border_batch_larger_than_facet")]
+    obs += [ctor_sentinels(cls, dim) for cls in ("CubicMeshPDEStatio", "CubicMeshPDENonStatio") for dim in (1, 2)]
     obs += [batch_shapes("DataGeneratorODE", 1), batch_shapes("CubicMeshPDEStatio", 1), batch_shapes("CubicMeshPDEStatio", 2),
             batch_shapes("CubicMeshPDENonStatio", 1), batch_shapes("CubicMeshPDENonStatio", 2),
             batch_shapes("CubicMeshPDENonStatio", 1, cartesian=False), batch_shapes("CubicMeshPDENonStatio", 2, cartesian=False), wf_preserved()]
